@@ -316,7 +316,7 @@ func init() {
 		Rule:     "boundary-biased generated values (0, 1, 2^31, 2^32-1, 2^63-1, 2^63, 2^64-1, random; empty / 1-byte / 70 KB byte strings; 0-9 nodes per configuration; every result and error kind) for every codec: log entry, the five requests and responses, Node, Config, snapshot label, Info, Replication, admin task responses (results, NotLeaderError with hint and lost flag, InProgressError by kind, every exported sentinel / not-ready error by equality); decode(encode(x) ++ tail) must return x and leave exactly tail, and every proper prefix (all of the first 48 bytes, 24 random cuts, the last 12) must fail; plus SetIdentity + New and granted vote + restart for 64-bit values incl. >= 2^63; a value is non-trivial if it is not the all-zero value; distinct = distinct encoding, counted per worker run (runs use different seeds)",
 		MinQuick: 50000, MinThorough: 1000000,
 		Counters:    []string{"bursts-cut-in-the-middle", "remote-status-reports-with-followers"},
-		Prefixes:    []string{"op:codec:", "op:truncated", "remote-status-reports:", "remote-errors:"},
+		Prefixes:    []string{"op:codec:", "op:truncated", "remote-status-reports:", "remote-errors:", "wire-reply-error:"},
 		Assumptions: []string{"exported wrappers in verif_codec_on.go call the unexported codec functions without altering values", "pipelined stream framing is additionally exercised end to end by the live-cluster and wire-level engines"},
 	}
 
